@@ -127,5 +127,6 @@ def run(rep, tier):
     sample = (opcells.single_target_cells(tier, seed)[::9] + opcells.multi_target_cells(tier, seed)[::7] + morecells.structural_cells(tier, seed)[::9]
               + morecells.kraus_cells(tier, seed)[::9] + morecells.trace_out_cells(tier, seed)[::7])
     B.run_b(rep, sample, ["C13"], tier=tier)
+    B.run_b(rep, morecells.three_space_cells(tier, seed) + morecells.stale_cache_cells(tier, seed), ["C13"], explore=True, tier=tier)
     B.run_b(rep, morecells.measure_cells(tier, seed)[::4] + morecells.povm_cells(tier, seed)[::6], ["C13"], explore=True, tier=tier)
     rep.assume("A-uid: uuids of distinct objects are distinct")
